@@ -614,6 +614,43 @@ func Subsequence(r *Rand, v *spec.Version) string {
 	}
 	hdr, el := SplitElems(v, v.Spell(a, ex, nil))
 	var out []string
+	if r.Chance(1, 3) {
+		// a prefix of the mandatory metrics, then very few of the optional ones
+		nb := 0
+		for _, me := range v.Metrics {
+			if me.Mandatory {
+				nb++
+			}
+		}
+		k := r.Intn(nb + 1)
+		if r.Bool() {
+			k = nb - r.Intn(3)
+			if k < 0 {
+				k = 0
+			}
+		}
+		out = append(out, el[:k]...)
+		keep := 1 + r.Intn(3)
+		for _, j := range r.Perm(len(el) - nb) {
+			if keep == 0 {
+				break
+			}
+			out = append(out, el[nb+j])
+			keep--
+		}
+		// restore specification order among the kept optional elements
+		tail := out[k:]
+		pos := map[string]int{}
+		for i, e := range el {
+			pos[e] = i
+		}
+		for i := 1; i < len(tail); i++ {
+			for j := i; j > 0 && pos[tail[j]] < pos[tail[j-1]]; j-- {
+				tail[j], tail[j-1] = tail[j-1], tail[j]
+			}
+		}
+		return hdr + strings.Join(out, "/")
+	}
 	// drop probability: mostly few drops, sometimes many
 	p := 1 + r.Intn(4)
 	for _, e := range el {
